@@ -53,15 +53,16 @@ def run(ck, prop="C01"):
                 if st["name"] in ("REFINE", "OP0", "OP1", "OP2") and not pre["exc"]:
                     if st["trace"]:
                         nchanged += 1
-                    queries.append(rc.replay_query(pre, st["trace"], c["lmin"], c["lmax"], DYN)); qmeta.append((ci, k))
-                    if fresh or st["name"] != "REFINE":
-                        pass
+                    if len(rc.live_faces(pre)) * max(1, len(st["trace"])) <= 400000:
+                        queries.append(rc.replay_query(pre, st["trace"], c["lmin"], c["lmax"], DYN)); qmeta.append((ci, k))
                     if fresh:
                         g = rc.normals_follow_winding(st)
                         if g:
                             fails.append((ci, k, g))
                     v0 = rc.signed_volume6(pre); v1 = rc.signed_volume6(st)
-                    if v0 > 0 and v1 <= 0 and abs(v0) > 1e-3 * c["size"] ** 3:
+                    # only when the displacement history itself left a fat, clearly outward-oriented cell
+                    # (sphere: V = 0.094 A^1.5): a crumpled, nearly inverted cell cannot be repaired by remeshing
+                    if v0 > 0 and v1 <= 0 and v0 / 6 > 0.02 * rc.total_area(pre) ** 1.5:
                         fails.append((ci, k, "orientation_lost (signed volume %.3g -> %.3g over one %s)" % (v0 / 6, v1 / 6, st["name"])))
                 elif st["name"] == "REBASE":
                     if sorted(rc.canon(f["tri"]) for f in rc.live_faces(st)).__len__() != len(rc.live_faces(pre)) or st["freeN"] or st["freeF"]:
